@@ -91,6 +91,9 @@ class PathInterp:
                 self._block(self.fn.body, ev)
             except _Return as r:
                 p.returned = r.value
+            except (_Continue, _Break):
+                # the interpreted body is a loop body: the iteration ends here with what it stored so far
+                pass
             except ZeroDivisionError:
                 # contradictory oracle answers (e.g. a width folded to zero, then assumed to be the larger one)
                 feasible = False
